@@ -71,8 +71,12 @@ def tasks(tier, seed):
         for P in (1, 2):
             for k in (1, 2, 3):
                 add("expected", 3, [], "expected-greedy", rnd.choice(["exploitability", "l1_norm"]), m=m, P=P, k=k)
+    # four players, three reveals, non-default gap functions (the candidates' ranking changes from round to round there)
+    add("expected", 4, [], "expected-greedy", "linf_norm", m=1, P=1, k=3)
+    add("expected", 4, [], "expected-greedy", "l1_norm", m=1, P=1, k=3)
     if tier == "thorough":
         add("expected", 4, [], "expected-greedy", "exploitability", m=1, P=2, k=2)
+        add("expected", 4, [], "expected-greedy", "linf_norm", m=2, P=2, k=3)
     return out
 
 
@@ -252,6 +256,11 @@ def canaries(params, inp, out, lg):
 CANARY_TASKS = 4
 
 
+# concolic pre-pass (engine.run guides): the paths taken by the test vectors are explored first, the systematic pass follows
+GUIDED = True
+GUIDED_N = 10
+
+
 def test_vectors(params):
     n = params["n"]
     vecs = []
@@ -262,4 +271,8 @@ def test_vectors(params):
             for S in range(1, 2 ** n):
                 d[f"g{j}v{S}"] = games[(j + t) % 3][S]
         vecs.append(d)
+    # generic superadditive games (no symmetry): these drive the guided paths of the searches
+    for t in range(8):
+        games = F.random_sa_games(n, f"c13/{t}", 5)
+        vecs.append({f"g{j}v{S}": games[j - 1][S] for j in range(1, 6) for S in range(1, 2 ** n)})
     return vecs
